@@ -148,7 +148,7 @@ func init() {
 	register(&Prop{
 		ID:         "C03",
 		Title:      "Secondary indexes always mirror the base table",
-		Decided:    "the representation invariants I2 (index.sortedKeys is the sorted multiset of the values of index.refs) and I3 (every base-table mutation is mirrored in every index) are preserved on every path: (R1) only core functions write index.refs/index.sortedKeys/Table.Indexes after construction; (R2) path-case analysis of every index mutator: the net change of refs[k] (absent→v, old→v, old→absent, unchanged) is matched by exactly the corresponding removal of the old index key and insertion (then sort) of the new one in sortedKeys, with presence established by a comma-ok lookup; (R3) every core function that changes Table.Data is followed on every success path by a range over t.Indexes whose body unconditionally calls an index mutator, (R4) with the same primary key; (R5) every call of Table.Clear is followed by a range over the same table's Indexes that clears each index, and the clear resets both containers; (R6) a function that inserts into Table.Indexes either back-fills the new index from the table's items or is only reachable on a table that was created in the same call (provably empty); (R7) per-index ItemCount flows from len(sortedKeys) through IndexesDescription into both SDK descriptions; (R8) GetKey turns a missing index attribute into success for secondary schemas (sparse index) and hands the key through: the key derivation it calls must return the empty key with every error, otherwise an item lacking the range attribute of an index enters that index under its hash part; (R9) what DescribeTable reports per index is built per index: no address of a loop-carried variable (or of one of its fields) is retained across iterations (= C18.R9), otherwise every index reports the values of the last one.",
+		Decided:    "the representation invariants I2 (index.sortedKeys is the sorted multiset of the values of index.refs) and I3 (every base-table mutation is mirrored in every index) are preserved on every path: (R1) only core functions write index.refs/index.sortedKeys/Table.Indexes after construction; (R2) path-case analysis of every index mutator: the net change of refs[k] (absent→v, old→v, old→absent, unchanged) is matched by exactly the corresponding removal of the old index key and insertion (then sort) of the new one in sortedKeys, with presence established by a comma-ok lookup; (R3) every core function that changes Table.Data is followed on every success path by a range over t.Indexes whose body unconditionally calls an index mutator, (R4) with the same primary key; (R5) every call of Table.Clear is followed by a range over the same table's Indexes that clears each index, and the clear resets both containers; (R6) a function that inserts into Table.Indexes either back-fills the new index from the table's items or is only reachable on a table that was created in the same call (provably empty); (R7) per-index ItemCount flows from len(sortedKeys) through IndexesDescription into both SDK descriptions; (R8) GetKey turns a missing index attribute into success for secondary schemas (sparse index) and hands the key through: the key derivation it calls must return the empty key with every error, otherwise an item lacking the range attribute of an index enters that index under its hash part; (R9) what DescribeTable reports per index is built per index: no address of a loop-carried variable (or of one of its fields) is retained across iterations (= C18.R9), otherwise every index reports the values of the last one; (R10) an index has no state beyond the confirmed fields; derived state added later must be kept coherent by every writer of refs.",
 		NotDecided: "that the index key derivation (GetKey with the index schema) yields the right key (C13) and that reading through the index iterates correctly (C02); values of attributes (C10).",
 		Assumes:    []string{"I2/I3 assumed at mutator entry (induction hypothesis)"},
 		Rules: []RuleDef{
@@ -218,6 +218,7 @@ func init() {
 			{ID: "R7", Desc: "per-index ItemCount flows from len(sortedKeys) into both SDK descriptions (T-FLOW)", Run: c03R7},
 			{ID: "R8", Desc: "sparse indexes: when the index key cannot be derived the EMPTY key is produced (zero key with every error)", Run: c03R8},
 			{ID: "R9", Desc: "per-index descriptions (names, key schemas, item counts) do not alias one loop variable (= C18.R9)", Run: aliasRule("R9", c18R9, nil)},
+			{ID: "R10", Desc: "the state of an index is the confirmed set of fields; new derived state (a cached entry list) must be rewritten by every writer of refs on every path (T-FIELD closure)", Run: func(e *Engine) { stateModelClosed(e, "R10", func(k string) bool { return k == "core.index" }) }},
 		},
 	})
 }
